@@ -439,3 +439,51 @@ def _(c):
         c.ensure("before_1997_02_27_without_them", sym.Implies(day < 50506, got * 3600 == base))
     else:
         c.ensure("without_kinematic_terms_when_not_asked", got * 3600 == base)
+
+
+def _grid_body_forms(tier, rng):
+    """frame pairs {EME2000 <-> Moon-centred, EME2000 <-> Sun-centred, Moon-centred <-> Sun-centred, EME2000 <-> ITRF} x the form the state is held in {cartesian, keplerian,
+    keplerian_mean, spherical, equinoctial} x 2 dates"""
+    for pair in range(4):
+        for form in range(5):
+            for d in range(2):
+                yield {"pair": pair, "form": form, "date": d}
+
+
+_BODY_FRAMES = {}
+
+
+@contract("C02", "native.forms", funcs=["beyond.orbits.statevector:StateVector.frame.fset", f"{FR}:Frame.transform", "beyond.orbits.forms:Form.__call__"], grid=_grid_body_forms, level="bounded")
+def _(c):
+    """bounded: a change of frame is a property of the state, not of the element form it is held in -- also between frames centred on different bodies (where the elements
+    depend on the body's mu): converting a keplerian / mean / spherical / equinoctial view gives the view of the converted cartesian state (1e-6 m, 1e-9 m/s), A -> B -> A is
+    the identity, in place and by copy, and the result is labelled with the target frame and the original form"""
+    from beyond.orbits import StateVector
+    from beyond.dates import Date
+    from beyond.env import solarsystem
+    from beyond.frames.frames import get_frame
+    for n in ("Moon", "Sun"):
+        if n not in _BODY_FRAMES:
+            _BODY_FRAMES[n] = solarsystem.get_frame(n)
+    names = [("EME2000", "Moon"), ("EME2000", "Sun"), ("Moon", "Sun"), ("EME2000", "ITRF")][c.integer("pair")]
+    A, B = (_BODY_FRAMES.get(n) or get_frame(n) for n in names)
+    form = ["cartesian", "keplerian", "keplerian_mean", "spherical", "equinoctial"][c.integer("form")]
+    date = [Date(2018, 5, 4, 3, 2, 1), Date(2011, 11, 11, 11, 11, 11)][c.integer("date")]
+    # a bound orbit about the centre of A
+    mu = A.center.body.mu
+    rad = {"Earth": 7.2e6, "Moon": 2.0e6, "Sun": 1.2e11}[A.center.body.name]
+    v = math.sqrt(mu / rad)
+    cart = StateVector([rad * 0.8, rad * 0.5, rad * 0.33, -v * 0.45, v * 0.7, v * 0.42], date, "cartesian", A)
+    view = cart.copy(form=form)
+    want = np.asarray(cart.copy(frame=B), dtype=float)
+    got_obj = view.copy(frame=B)
+    got = np.asarray(got_obj.copy(form="cartesian"), dtype=float)
+    sr, sv_ = np.linalg.norm(want[:3]), np.linalg.norm(want[3:])
+    c.ensure("labelled_with_target_frame_and_original_form", got_obj.frame.name == B.name and got_obj.form.name == form)
+    c.ensure("same_as_the_cartesian_route", bool(np.linalg.norm(got[:3] - want[:3]) <= 1e-6 + 1e-12 * sr and np.linalg.norm(got[3:] - want[3:]) <= 1e-9 + 1e-12 * sv_))
+    back = np.asarray(got_obj.copy(frame=A).copy(form="cartesian"), dtype=float)
+    c0 = np.asarray(cart, dtype=float)
+    c.ensure("there_and_back", bool(np.linalg.norm(back[:3] - c0[:3]) <= 1e-6 + 1e-9 * rad and np.linalg.norm(back[3:] - c0[3:]) <= 1e-9 + 1e-9 * v))
+    inplace = view.copy()
+    inplace.frame = B
+    c.ensure("in_place_equals_copy", bool(np.allclose(np.asarray(inplace, dtype=float), np.asarray(got_obj, dtype=float), rtol=1e-12, atol=1e-9)) and inplace.frame.name == B.name)
